@@ -57,16 +57,26 @@ def classify_exception(exc):
             return "inconclusive", "inconclusive:AnalysisError", str(exc)[:200]
     except Exception:
         pass
-    tb = traceback.extract_tb(exc.__traceback__)
     oas_root = os.path.join(env.REPO, "openaerostruct") + os.sep
     inner = None
-    for fr in tb:
-        if os.path.abspath(fr.filename).startswith(oas_root):
-            inner = fr
-    text = "".join(traceback.format_exception(type(exc), exc, exc.__traceback__))[-3000:]
+    inner_exc = exc
+    # walk the exception chain: OpenMDAO re-raises user-function errors (sometimes failing while formatting them)
+    chain = []
+    e = exc
+    while e is not None and e not in chain:
+        chain.append(e)
+        e = e.__cause__ or e.__context__
+    for e in chain:
+        for fr in traceback.extract_tb(e.__traceback__):
+            if os.path.abspath(fr.filename).startswith(oas_root):
+                inner = fr
+                inner_exc = e
+        if inner is not None:
+            break
+    text = "".join(traceback.format_exception(type(exc), exc, exc.__traceback__))[-6000:]
     if inner is not None:
         rel = os.path.relpath(inner.filename, env.REPO)
-        return "crash", "crash:%s@%s:%s" % (type(exc).__name__, rel, inner.name), text
+        return "crash", "crash:%s@%s:%s" % (type(inner_exc).__name__, rel, inner.name), text
     return "harness", "harness:%s" % type(exc).__name__, text
 
 
@@ -276,6 +286,11 @@ def _run_history(sub, task, res):
 
     for op, strat in sub.rules.items():
         attrs["op_" + op] = make_rule(op, strat)
+
+    def idle(self):
+        """keeps Hypothesis going after the interpreter died (non-convergent / inconclusive configuration)"""
+
+    attrs["op__idle"] = precondition(lambda self: self.interp is None)(rule()(idle))
     Machine = type("Machine_" + sub.name, (RuleBasedStateMachine,), attrs)
     try:
         run_state_machine_as_test(
@@ -650,7 +665,7 @@ def _do_run(a, pid, seed, mod, subs, known, known_active, scratch, t0):
         print("  violation sub=%s key=%s cases=%d :: %s" % (v["sub"], v["key"], v["n"], v["msg"].replace("\n", " ")[:240]))
         print("VIOLATION property=%s replay=%s" % (pid, v["replay"]))
     for h in harness[:3]:
-        print("HARNESS-ERROR " + h[-1500:])
+        print("HARNESS-ERROR " + h[-(20000 if os.environ.get("VERIF_VERBOSE") else 1500):])
     if violations:
         return 1
     if harness:
